@@ -3,12 +3,14 @@ import itertools
 from vlib.gen_traj import f2b
 
 PID = "C16"
-LEAN_MODULE = "Sb.Properties.C16"
+LEAN_MODULE = "Sb.Properties.C16Quantum"
 THEOREMS = [
     "Sb.C16.constants", "Sb.C16.splitDur_sum", "Sb.C16.splitDur_le", "Sb.C16.appendMany_append",
     "Sb.C16.appendLineAux_as_segments", "Sb.C16.holdChunks_sum", "Sb.C16.init_invalid_scale",
     "Sb.C16.setStart_after_segment", "Sb.C16.appendLine_rejects",
-]
+            "Sb.C16.scaleCoord_within_quantum", "Sb.C16.scaleCoord_quotient_small", "Sb.Proofs.floor_round_within_one", "Sb.Proofs.roundF32_intCast", "Sb.Proofs.roundF32_mono",
+            "Sb.C16.appendLine_ok", "Sb.C16.appendLineAux_ok", "Sb.C16.scaleCoord_between", "Sb.C16.validC_mid", "Sb.C16.validPt_origin",
+            "Sb.Proofs.midpoint_between", "Sb.Proofs.repr_round", "Sb.Proofs.repr_two_mul"]
 ASSUMPTIONS = ["finite coordinates (NaN would make floorf(NaN) -> int16 conversion undefined; the property quantifies over finite ones)"]
 RULE = ("all call sequences up to length 4 (quick: 3) over a small alphabet {set-start ok/unrepresentable, append-line short/exactly "
         "60000/60001/120001/3.6e6 ms to representable and unrepresentable targets, hold 0/59999/60000/60001/180000 ms, finish} after "
